@@ -188,6 +188,9 @@ def check_encoded(ctx, B, short, kind, oid, crit, spec, o, pc, cname):
     """One returning path `o` of an encoder, evaluated for one member of its input partition: `pc` is the member stated as
     path-condition atoms followed by the path's own conditions (those on the fields that are not partitioned: the refresh mode)."""
     v = o.val
+    # (the requestValue of an extended operation is also part of C02's "the bytes written are exactly the requested operation":
+    # the Exop encoders report under a name of their own so that C02 can take exactly them over, see C02.SHARED)
+    RV = 'X.value' if kind == 'ctl' else 'X.value.exop'
     if v[0] != 'struct':
         ctx.fail('X.encoder-result', short, loc(B.root), 'encoder does not return a struct literal: %s' % absx.fmt(v)[:60]); return
     fl = dict(v[2])
@@ -204,32 +207,33 @@ def check_encoded(ctx, B, short, kind, oid, crit, spec, o, pc, cname):
     own = ','.join(('' if t else '!') + absx.fmt(a)[:24] for a, t in o.st.pc)[:80]
     inst = '%s|%s' % (short, cname + ('; ' + own if own else ''))
     if spec == NONE:
-        ctx.add('X.value', inst, loc(B.root), val == ('ctor', 'None', ()), 'value must be absent, found %s' % absx.fmt(val)[:60])
+        ctx.add(RV, inst, loc(B.root), val == ('ctor', 'None', ()), 'value must be absent, found %s' % absx.fmt(val)[:60])
     elif isinstance(spec, tuple) and spec[0] == RAW:
         ok = val[0] == 'ctor' and val[1] == 'Some' and spec[1](val[2][0], {})
-        ctx.add('X.value', inst, loc(B.root), ok, 'value must be the raw bytes of the field, found %s' % absx.fmt(val)[:60])
+        ctx.add(RV, inst, loc(B.root), ok, 'value must be the raw bytes of the field, found %s' % absx.fmt(val)[:60])
     else:
+        # which side of each optional element this member of the partition is on (X.optional-both-ways: the partition reaches both)
+        sides = {(r[3], r[1](pc)) for r in spec[3] if r[0] == 'OPT'} if spec[0] == 'C' and not undecided_optionals(spec, pc) else set()
         if short.startswith('passmod') and val == ('ctor', 'None', ()):
             # RFC 3062: the whole requestValue is omitted when no field is given
             none3 = all(is_some_pc(F('pm', n))(pc) is False for n in ('user_id', 'old_pass', 'new_pass'))
-            ctx.add('X.value', inst, loc(B.root), none3, 'requestValue omitted although a field is present')
-            return
+            ctx.add(RV, inst, loc(B.root), none3, 'for a value with %s: requestValue omitted although a field is present' % cname)
+            return sides
         # the whole encoded buffer: `buf[..]` (any spelling of the copy) or the buffer itself
         ok = val[0] == 'ctor' and val[1] == 'Some' and val[2][0][0] == 'index' and val[2][0][1][0] == 'encoded' and val[2][0][2][0] == 'struct' and val[2][0][2][1].endswith('RangeFull')
         enc = val[2][0][1] if ok else None
         if not ok and val[0] == 'ctor' and val[1] == 'Some' and val[2][0][0] == 'encoded':
             ok, enc = True, val[2][0]
         if not ok:
-            ctx.fail('X.value', inst, loc(B.root), 'value is not Some(<whole encoded buffer>): %s' % absx.fmt(val)[:80]); return
+            ctx.fail(RV, inst, loc(B.root), 'value is not Some(<whole encoded buffer>): %s' % absx.fmt(val)[:80]); return
         und = undecided_optionals(spec, pc)
         if und:
             # (cannot happen while every presence condition of the reference is a field of the partition: fail closed if it does)
-            ctx.fail('X.value', inst, loc(B.root), 'the presence of %s is not decided for this member of the input partition' % ', '.join(und)); return
+            ctx.fail(RV, inst, loc(B.root), 'the presence of %s is not decided for this member of the input partition' % ', '.join(und)); return
         env = {'elems': [], 'pc': pc}
         mism = compare(to_shape(enc[1]), spec, pc, env)
-        ctx.add('X.value', inst, loc(B.root), not mism, ('for a value with %s: ' % cname) + ('; '.join(mism)[:400] or 'matches the RFC'))
-        if not mism and spec[0] == 'C':
-            return {(r[3], r[1](pc)) for r in spec[3] if r[0] == 'OPT'}
+        ctx.add(RV, inst, loc(B.root), not mism, ('for a value with %s: ' % cname) + ('; '.join(mism)[:400] or 'matches the RFC'))
+        return sides
 
 def run(ctx):
     f = ctx.facts
@@ -260,6 +264,9 @@ def run(ctx):
         for case in cases:
             hook = CaseHook(lambda b, base=base: b == base, case)
             I = absx.Interp(f, B, unroll=1, inline=inline_policy, for_once=True, combinators=True, field_hook=hook)
+            # with the Option / bool fields fixed, a component list built by an iterator chain over an array of those fields
+            # (`[a, b, c].into_iter().flatten().enumerate().map(..).collect()`) is a sequence known by position at every stage
+            I.listed_seqs = True
             outs = [o for o in I.run(env=hook.env(I.param_env())) if o.kind in ('val', 'ret')]
             cname = case_name(case)
             ctx.add('X.encoder-paths', '%s|%s' % (short, cname), loc(B.root), len(outs) >= 1, 'no returning path for a value with %s' % cname)
